@@ -119,7 +119,7 @@ fn shape_case<G: CurveTag>(s: &Shape17, col: &mut Collector) -> Result<(), Failu
     let valid = fixture::<G>(1, 0);
     for &cap_v in caps {
         let near = cap_v + 1 >= need && cap_v <= need + 1;
-        for mode in 0..3u8 {
+        for mode in 0..5u8 {
             col.evals_add(1);
             let (res, panic): (Option<Result<(), R1CSError>>, Option<String>) = match mode {
                 0 => {
@@ -128,14 +128,17 @@ fn shape_case<G: CurveTag>(s: &Shape17, col: &mut Collector) -> Result<(), Failu
                 }
                 m => {
                     let mut members = vec![BatchMember { prog: &prog, commitments: &p.commitments, proof }];
-                    if m == 2 {
-                        // a valid one-gate member next to it (needs capacity 1)
+                    // valid one-gate members (capacity 1) after it, before it, or on both sides
+                    if m == 2 || m == 4 {
                         members.push(BatchMember { prog: &valid.prog, commitments: &valid.commitments, proof: &valid.proof });
+                    }
+                    if m == 3 || m == 4 {
+                        members.insert(0, BatchMember { prog: &valid.prog, commitments: &valid.commitments, proof: &valid.proof });
                     }
                     run_batch::<G>(&members, cap_v, 9)
                 }
             };
-            let mname = ["verify", "batch_verify(alone)", "batch_verify(beside a valid member)"][mode as usize];
+            let mname = ["verify", "batch_verify(alone)", "batch_verify(before a valid member)", "batch_verify(after a smaller valid member)", "batch_verify(between valid members)"][mode as usize];
             if let Some(pn) = panic {
                 return Err(Failure::new(format!("C17:{}-panic", mname), format!("{} panicked with capacity {} (need {}): {}", mname, cap_v, need, pn), what(json!({"cap_v": cap_v}))));
             }
